@@ -365,10 +365,17 @@ def run(ck):
     try:
         pname_ = conv.node.args.args[0].arg
         body_ = list(conv.node.body)
-        while body_ and (isinstance(body_[0], ast.Assert) or
-                         (isinstance(body_[0], ast.Expr) and isinstance(body_[0].value, ast.Constant)) or
-                         any(isinstance(x, ast.Name) and x.id == pname_ for x in ast.walk(body_[0]))):
-            body_.pop(0)
+        while body_:
+            st0 = body_[0]
+            if isinstance(st0, ast.Assert) or (isinstance(st0, ast.Expr) and isinstance(st0.value, ast.Constant)):
+                body_.pop(0)
+            elif isinstance(st0, ast.If) and st0.orelse and st0.body and isinstance(st0.body[-1], ast.Raise) \
+                    and any(isinstance(x, ast.Name) and x.id == pname_ for x in ast.walk(st0.test)):
+                body_ = list(st0.orelse) + body_[1:]    # `if no match: raise ... else: <the rest>`
+            elif any(isinstance(x, ast.Name) and x.id == pname_ for x in ast.walk(st0)):
+                body_.pop(0)
+            else:
+                break
         groups_text = norm(zip_node.args[0].args[0])        # <match>.groups()
         consts_ = {}
         for nm_ in {x.id for x in ast.walk(conv.node) if isinstance(x, ast.Name)}:
